@@ -219,4 +219,142 @@ theorem newClient_step (s : State) (h : StateOK s) (id : Int) (hid : -2147483648
       · exact fresh _ (by intro cli hc; cases hc)
     · exact h.reqs q h1
 
+/-! ### global reports -/
+
+theorem sendRaw_eq (t : Bytes) : sendRaw t = t.take 1023 := rfl
+
+theorem reportConfig_wf (m text : Bytes) (hm : Clean m) (ht : Clean text) : wellFormed (reportConfig m text) = true := by
+  unfold reportConfig
+  rw [sendRaw_eq]
+  have e : b "A " ++ m ++ b " :" ++ truncBuf 1024 text = 65 :: (32 :: (m ++ 32 :: 58 :: text.take 1023)) := by
+    have h1 : b "A " = [65, 32] := by decide
+    rw [h1, b_colon]; simp [truncBuf]
+  rw [e]
+  exact global_wellFormed 65 (Or.inr (Or.inr (Or.inl rfl))) _ (Or.inr ⟨_, rfl⟩)
+    (Clean.cons (by decide) (by decide) (Clean.append hm (Clean.cons (by decide) (by decide) (Clean.cons (by decide) (by decide) (ht.take _)))))
+
+theorem reportStats_wf (m text : Bytes) (hm : Word m) (hmc : Clean m) (hml : m.length ≤ 100) (ht : Clean text) :
+    wellFormed (reportStats m text) = true := by
+  unfold reportStats
+  rw [sendRaw_eq]
+  have e : b "S " ++ m ++ b " :" ++ truncBuf 1024 text = joinSp [[83], m] ++ 32 :: 58 :: text.take 1023 := by
+    have h1 : b "S " = [83, 32] := by decide
+    rw [h1, b_colon]; simp [truncBuf, joinSp]
+  rw [e]
+  exact stats_wellFormed hm hmc hml (ht.take _)
+
+theorem sendOpers_wf (text : Bytes) (ht : Clean text) : wellFormed (sendOpers text) = true := by
+  unfold sendOpers
+  rw [sendRaw_eq]
+  have e : b "> :" ++ text = 62 :: (32 :: 58 :: text) := by
+    have h1 : b "> :" = [62, 32, 58] := by decide
+    rw [h1]; rfl
+  rw [e]
+  exact global_wellFormed 62 (Or.inr (Or.inr (Or.inr (Or.inr (Or.inr (Or.inl rfl)))))) _ (Or.inr ⟨_, rfl⟩)
+    (Clean.cons (by decide) (by decide) (Clean.cons (by decide) (by decide) ht))
+
+theorem word_class : Word (b "class") ∧ Clean (b "class") ∧ (b "class").length ≤ 100 := by
+  refine ⟨⟨by decide, ?_, by decide⟩, clean_of_cleanB (by decide), by decide⟩
+  intro c hc; revert c; decide
+theorem word_xquery : Word (b "xquery") ∧ Clean (b "xquery") ∧ (b "xquery").length ≤ 100 := by
+  refine ⟨⟨by decide, ?_, by decide⟩, clean_of_cleanB (by decide), by decide⟩
+  intro c hc; revert c; decide
+theorem word_iauth : Word (b "iauth") ∧ Clean (b "iauth") ∧ (b "iauth").length ≤ 100 := by
+  refine ⟨⟨by decide, ?_, by decide⟩, clean_of_cleanB (by decide), by decide⟩
+  intro c hc; revert c; decide
+
+theorem tyName_clean (t : SvcTy) : Clean t.name := by
+  cases t <;> exact clean_of_cleanB (by decide)
+
+theorem OutOK.append {a c : List Bytes} (ha : OutOK a) (hc : OutOK c) : OutOK (a ++ c) := by
+  intro l hl
+  rcases List.mem_append.mp hl with h | h
+  · exact ha l h
+  · exact hc l h
+theorem OutOK.single {l : Bytes} (h : wellFormed l = true) : OutOK [l] := by
+  intro x hx; simp only [List.mem_singleton] at hx; subst hx; exact h
+theorem OutOK.ite {p : Prop} [Decidable p] {a c : List Bytes} (ha : OutOK a) (hc : OutOK c) : OutOK (if p then a else c) := by
+  split <;> assumption
+
+theorem letter_a_wf : wellFormed (sendRaw (b "a")) = true := by
+  rw [sendRaw_eq, show b "a" = 97 :: [] from by decide]
+  exact global_wellFormed 97 (Or.inr (Or.inl rfl)) [] (Or.inl rfl) Clean.nil
+theorem letter_s_wf : wellFormed (sendRaw (b "s")) = true := by
+  rw [sendRaw_eq, show b "s" = 115 :: [] from by decide]
+  exact global_wellFormed 115 (Or.inr (Or.inr (Or.inr (Or.inr (Or.inl rfl))))) [] (Or.inl rfl) Clean.nil
+
+attribute [local irreducible] decNat
+
+theorem collectConfig_ok (s : State) (h : StateOK s) : OutOK (collectConfig s) := by
+  unfold collectConfig
+  refine OutOK.append (OutOK.append (OutOK.single letter_a_wf) (OutOK.ite (OutOK.single ?_) OutOK.nil)) (OutOK.ite ?_ OutOK.nil)
+  · exact reportConfig_wf _ _ word_class.2.1 (Clean.append (decNat_clean _) (clean_of_cleanB (by decide)))
+  · intro l hl
+    obtain ⟨o, ho, hm⟩ := List.mem_filterMap.mp hl
+    cases o with
+    | none => simp at hm
+    | some srv =>
+      simp only [Option.map_some, Option.some.injEq] at hm
+      rw [← hm]
+      have hs := h.svcs srv ho
+      apply reportConfig_wf _ _ word_xquery.2.1
+      simp only [clean_append_iff]
+      refine ⟨⟨⟨?_, hs.2.1⟩, sp_clean⟩, tyName_clean _⟩
+      split <;> exact clean_of_cleanB (by decide)
+
+theorem collectStats_ok (s : State) (h : StateOK s) (last : Bool) : OutOK (collectStats s last) := by
+  unfold collectStats
+  refine OutOK.append (OutOK.append (OutOK.append (OutOK.append ?_ ?_) ?_) ?_) ?_
+  · exact OutOK.ite OutOK.nil (OutOK.single letter_s_wf)
+  · apply OutOK.single
+    unfold collectStats.reportStatsCore
+    rw [sendRaw_eq]
+    have e : ∀ x : Bytes, b "S iauth :" ++ x = joinSp [[83], b "iauth"] ++ 32 :: 58 :: x := by
+      intro x
+      have h1 : b "S iauth :" = [83, 32] ++ b "iauth" ++ [32, 58] := by decide
+      rw [h1]; simp [joinSp]
+    simp only [List.append_assoc]
+    rw [e]
+    apply stats_wellFormed word_iauth.1 word_iauth.2.1 word_iauth.2.2
+    simp only [clean_append_iff]
+    repeat' apply And.intro
+    all_goals first | exact clean_of_cleanB (by decide) | exact decNat_clean _
+  · refine OutOK.ite (OutOK.append ?_ (OutOK.single ?_)) OutOK.nil
+    · intro l hl
+      obtain ⟨r, hr, rfl⟩ := List.mem_map.mp hl
+      have hrule := h.rules r hr
+      split
+      · rename_i c hc
+        apply reportStats_wf _ _ word_class.1 word_class.2.1 word_class.2.2
+        simp only [clean_append_iff]
+        repeat' apply And.intro
+        all_goals first | exact hrule.2.2.1 | exact hrule.2.2.2 c hc | exact decNat_clean _ | exact clean_of_cleanB (by decide)
+      · apply reportStats_wf _ _ word_class.1 word_class.2.1 word_class.2.2
+        simp only [clean_append_iff]
+        repeat' apply And.intro
+        all_goals first | exact hrule.2.2.1 | exact decNat_clean _ | exact clean_of_cleanB (by decide)
+    · apply reportStats_wf _ _ word_class.1 word_class.2.1 word_class.2.2
+      simp only [clean_append_iff]
+      repeat' apply And.intro
+      all_goals first | exact clean_of_cleanB (by decide) | exact decNat_clean _
+  · refine OutOK.ite (OutOK.append (OutOK.append (OutOK.single ?_) ?_) (OutOK.single ?_)) OutOK.nil
+    · exact reportStats_wf _ _ word_xquery.1 word_xquery.2.1 word_xquery.2.2 (clean_of_cleanB (by decide))
+    · intro l hl
+      obtain ⟨o, ho, hm⟩ := List.mem_filterMap.mp hl
+      cases o with
+      | none => simp at hm
+      | some srv =>
+        simp only [Option.map_some, Option.some.injEq] at hm
+        rw [← hm]
+        have hs := h.svcs srv ho
+        apply reportStats_wf _ _ word_xquery.1 word_xquery.2.1 word_xquery.2.2
+        simp only [clean_append_iff]
+        repeat' apply And.intro
+        all_goals first | exact hs.2.1 | exact decNat_clean _ | exact sp_clean | (split <;> exact clean_of_cleanB (by decide))
+    · apply reportStats_wf _ _ word_xquery.1 word_xquery.2.1 word_xquery.2.2
+      simp only [clean_append_iff]
+      repeat' apply And.intro
+      all_goals first | exact clean_of_cleanB (by decide) | exact decNat_clean _
+  · exact OutOK.ite (OutOK.single letter_s_wf) OutOK.nil
+
 end Iauthd.Proto
